@@ -760,6 +760,13 @@ class ManifestShape(Contract):
         yield dict(base)
         yield dict(base, sigkey1=None, size1=0)
         yield dict(base, sigkey1="abcDEF01", cat="Source", V1="b", V2="a", A1="ppc64le", A2="aarch64")
+        # module UIDs with 2, 3 and 4 parts; blank version/context as filed for the short forms
+        yield dict(base, k1="perl:5.30", k2="nodejs:12:2020", path3="", path2="")
+        yield dict(base, k1="perl:5.30:2020:cafe", k2="nodejs:12", path3="2020", path2="cafe")
+        # realistic key spellings (sub-package names, dashed names, epochs) and every category
+        for cat in ("binary", "debug", "source"):
+            yield dict(base, cat=cat, k1="kernel-debug-core-0:5.14-1.x86_64", k2="glibc-debuginfo-common-1:2.34-1.x86_64",
+                       k3="kernel-0:5.14-1.src", rpm1="kernel-debug-0:5.14-1.x86_64", rpm2="python3-devel-0:3.9-1.noarch")
 
     def native_eval(self, a):
         mod = self.src.mods[self.module]
@@ -795,6 +802,127 @@ class ManifestShape(Contract):
 
     def describe(self, a):
         return "%s manifest with payload %s written and re-read" % (self.cls, concretise.py_repr(self.build(a, dict, list)))
+
+
+class Rpms03Refile(Contract):
+    """Rpms.deserialize_0_3 on the legacy document  {V: {A1: {S: {R1: rec1}}, A2: {S: {R2: rec2}}, 'src': {S: srec}}}  (all keys and leaves
+    symbolic, 'src' first or last): every binary record is filed through add() under its own arch with category 'package' -> 'binary',
+    and the source RPM is re-filed under EVERY binary arch that lists packages built from it, with the path and sigkey of ITS OWN record
+    under 'src'; nothing is filed under 'src'.  add() itself is the callee contract meth:rpms.Rpms.add (recorded here, not executed)."""
+    name = "productmd.rpms.Rpms.deserialize_0_3"
+    key = "meth:rpms.Rpms.deserialize_0_3"
+
+    def __init__(self, src, T):
+        self.src, self.T = src, T
+
+    def setup(self, E):
+        m = E.instantiate(("rpms", "Rpms"))
+        a = {}
+        for n in ("V", "A1", "A2", "S", "R1", "R2", "path1", "path2", "spath", "type1", "type2"):
+            a[n] = SV(sym.Val.VStr(z3.Const("d.%s" % n, sym.S)))
+        for n in ("sigkey1", "sigkey2", "ssigkey"):
+            a[n] = SV(z3.Const("d.%s" % n, sym.Val))
+            E.assume(Or(is_none(a[n]), is_str(a[n])))
+        E.assume(And(Not(eq(a["A1"], a["A2"])), Not(eq(a["A1"], "src")), Not(eq(a["A2"], "src"))))
+
+        def D(items):
+            d = E.models.new_dict("doc")
+            for k, v in items:
+                d.entries.append(Entry(k, True, v))
+            return d
+
+        def rec(t, path, sig):
+            return D([("type", t), ("path", path), ("sigkey", sig)])
+        arches = [(a["A1"], D([(a["S"], D([(a["R1"], rec(a["type1"], a["path1"], a["sigkey1"]))]))])),
+                  (a["A2"], D([(a["S"], D([(a["R2"], rec(a["type2"], a["path2"], a["sigkey2"]))]))]))]
+        srcd = ("src", D([(a["S"], rec("source", a["spath"], a["ssigkey"]))]))
+        src_first = E.decide(E.fresh("src_first", z3.BoolSort()))
+        arches = [srcd] + arches if src_first else arches + [srcd]
+        data = D([("payload", D([("compose", D([])), ("manifest", D([(a["V"], D(arches))]))]))])
+        calls = []
+
+        def add(E_, o, args, kwargs):
+            calls.append((list(args), dict(kwargs)))
+            return None
+        E.summaries[(("rpms", "Rpms"), "add")] = add
+        E.summaries[(("composeinfo", "Compose"), "deserialize")] = lambda E_, o, args, kwargs: None
+        return {"m": m, "data": data, "a": a, "calls": calls, "src_first": src_first}
+
+    def call(self, E, st):
+        try:
+            return E.call(E.getattr_(st["m"], "deserialize_0_3"), [st["data"]])
+        finally:
+            E.summaries.pop((("rpms", "Rpms"), "add"), None)
+            E.summaries.pop((("composeinfo", "Compose"), "deserialize"), None)
+
+    @staticmethod
+    def expected(a, cat):
+        return [(a["V"], a["A1"], a["R1"], a["path1"], a["sigkey1"], cat(a["type1"]), a["S"]),
+                (a["V"], a["A1"], a["S"], a["spath"], a["ssigkey"], "source", None),
+                (a["V"], a["A2"], a["R2"], a["path2"], a["sigkey2"], cat(a["type2"]), a["S"]),
+                (a["V"], a["A2"], a["S"], a["spath"], a["ssigkey"], "source", None)]
+
+    def post(self, E, st, out):
+        if out.kind == "raise":
+            return {"legacy_document_is_read": False}
+        a = st["a"]
+        names = ["variant", "arch", "nevra", "path", "sigkey", "category", "srpm_nevra"]
+        got = []
+        for args, kw in st["calls"]:
+            row = list(args) + [None] * (7 - len(args))
+            for k, v in kw.items():
+                row[names.index(k)] = v
+            got.append(row)
+        exp = self.expected(a, lambda t: If(eq(t, "package"), "binary", t))
+        same = len(got) == 4 and And(*[_veq(g, e) for grow, erow in zip(got, exp) for g, e in zip(grow, erow)])
+        return {"legacy_document_is_read": True,
+                "every_record_refiled_with_its_own_fields": same,
+                "nothing_filed_under_src": And(*[Not(eq(r[1], "src")) for r in got]) if got else True}
+
+    def concretise(self, model, st):
+        inp = dict((k, concretise.value_of(model, v)) for k, v in st["a"].items())
+        inp["src_first"] = bool(st["src_first"])
+        return inp
+
+    def sample_inputs(self, rng):
+        base = {"V": "Server", "A1": "x86_64", "A2": "s390x", "S": "s-0:1-1.src", "R1": "a-0:1-1.x86_64", "R2": "a-0:1-1.s390x", "path1": "p1",
+                "path2": "p2", "spath": "sp", "type1": "package", "type2": "debug", "sigkey1": "k1", "sigkey2": None, "ssigkey": "sk"}
+        for sf in (False, True):
+            yield dict(base, src_first=sf)
+            yield dict(base, src_first=sf, ssigkey=None, sigkey1="zz")
+
+    def native_eval(self, a):
+        mod = self.src.mods["rpms"]
+        m = mod.Rpms()
+        calls = []
+        m.add = lambda *args, **kw: calls.append((list(args), kw))
+        m.compose.deserialize = lambda *args, **kw: None
+
+        def rec(t, path, sig):
+            return {"type": t, "path": path, "sigkey": sig}
+        arches = [(a["A1"], {a["S"]: {a["R1"]: rec(a["type1"], a["path1"], a["sigkey1"])}}),
+                  (a["A2"], {a["S"]: {a["R2"]: rec(a["type2"], a["path2"], a["sigkey2"])}})]
+        srcd = ("src", {a["S"]: rec("source", a["spath"], a["ssigkey"])})
+        arches = [srcd] + arches if a.get("src_first") else arches + [srcd]
+        if len(dict(arches)) != 3:
+            return ("skip", None), None
+        data = {"payload": {"compose": {}, "manifest": {a["V"]: dict(arches)}}}
+        nat = native_call(m.deserialize_0_3, data)
+        if nat[0] == "raise":
+            return nat, {"legacy_document_is_read": False}
+        names = ["variant", "arch", "nevra", "path", "sigkey", "category", "srpm_nevra"]
+        got = []
+        for args, kw in calls:
+            row = list(args) + [None] * (7 - len(args))
+            for k, v in kw.items():
+                row[names.index(k)] = v
+            got.append(tuple(row))
+        exp = self.expected(a, lambda t: "binary" if t == "package" else t)
+        return nat, {"legacy_document_is_read": True, "every_record_refiled_with_its_own_fields": got == exp,
+                     "nothing_filed_under_src": all(r[1] != "src" for r in got)}
+
+    def describe(self, a):
+        return "Rpms.deserialize_0_3 on the legacy manifest built from %s" % concretise.py_repr(a)
 
 
 def contracts(src, T):          # noqa: F811
@@ -861,4 +989,4 @@ def contracts(src, T):          # noqa: F811
             ManifestVerbatim(src, T, "rpms", "Rpms", "rpms"), ManifestVerbatim(src, T, "modules", "Modules", "modules"),
             ManifestVerbatim(src, T, "extra_files", "ExtraFiles", "extra_files"),
             ManifestShape(src, T, "rpms", "Rpms", "rpms"), ManifestShape(src, T, "modules", "Modules", "modules"),
-            ManifestShape(src, T, "extra_files", "ExtraFiles", "extra_files")]
+            ManifestShape(src, T, "extra_files", "ExtraFiles", "extra_files"), Rpms03Refile(src, T)]
